@@ -414,3 +414,92 @@ Qed.
 
 Lemma checksum_lt : forall s, (sum_codes s) mod 256 < 256.
 Proof. intro s. apply N.mod_lt. discriminate. Qed.
+
+(* ------------------------------------------------------------------ more on find_sub (round 9) *)
+
+Lemma prefixb_len : forall p s, prefixb p s = true -> (length p <= length s)%nat.
+Proof. intros p s H. apply prefixb_spec in H as [r E]. subst. rewrite app_length. lia. Qed.
+
+Lemma prefixb_app_short : forall p a b, prefixb p (a ++ b) = true -> (length p <= length a)%nat -> prefixb p a = true.
+Proof.
+  induction p as [|x p IH]; intros a b H L; [reflexivity|].
+  destruct a as [|y a]; cbn in *; [lia|].
+  apply andb_true_iff in H as [H1 H2]. rewrite H1. cbn. apply (IH a b H2). lia.
+Qed.
+
+Lemma find_sub_some_len : forall p a k, find_sub p a = Some k -> (length p <= length a)%nat.
+Proof.
+  intros p a. induction a as [|x a IH]; intros k H.
+  - rewrite find_sub_nil in H. destruct (prefixb p []) eqn:E; [|discriminate]. apply (prefixb_len _ _ E).
+  - rewrite find_sub_cons in H. destruct (prefixb p (x :: a)) eqn:E; [apply (prefixb_len _ _ E)|].
+    destruct (find_sub p a) as [k'|] eqn:F; [|discriminate]. specialize (IH k' eq_refl). cbn [length]. lia.
+Qed.
+
+(* the first occurrence is stable under extension on the right *)
+Lemma find_sub_some_ext : forall p a b k, find_sub p a = Some k -> find_sub p (a ++ b) = Some k.
+Proof.
+  intros p a. induction a as [|x a IH]; intros b k H.
+  - rewrite find_sub_nil in H. destruct (prefixb p []) eqn:E; [|discriminate]. injection H as H. subst k.
+    apply find_sub_head. apply prefixb_app_r. assumption.
+  - cbn [app]. rewrite find_sub_cons in *. destruct (prefixb p (x :: a)) eqn:E.
+    + pose proof (prefixb_app_r p (x :: a) b E) as E'. cbn [app] in E'. rewrite E'. assumption.
+    + destruct (find_sub p a) as [k'|] eqn:F; [|discriminate].
+      destruct (prefixb p (x :: a ++ b)) eqn:E2.
+      * exfalso. pose proof (find_sub_some_len p a k' F) as L.
+        change (x :: a ++ b) with ((x :: a) ++ b) in E2.
+        rewrite (prefixb_app_short p (x :: a) b E2) in E; [discriminate | cbn [length]; lia].
+      * rewrite (IH b k' eq_refl). assumption.
+Qed.
+
+(* a pattern c :: q in text that is c-free up to the first c *)
+Lemma find_sub_first_char : forall c q f T, cfree c f ->
+  find_sub (c :: q) (f ++ c :: T) =
+  if prefixb q T then Some (length f) else option_map (fun k => (length f + 1 + k)%nat) (find_sub (c :: q) T).
+Proof.
+  intros c q f T. induction f as [|x f IH]; intro H.
+  - cbn [app length]. rewrite find_sub_cons. cbn [prefixb]. rewrite N.eqb_refl. cbn [andb].
+    destruct (prefixb q T); [reflexivity|]. destruct (find_sub (c :: q) T); reflexivity.
+  - apply cfree_cons in H as [Hx Hf]. cbn [app length]. rewrite find_sub_cons. cbn [prefixb].
+    destruct (c =? x) eqn:E; [apply N.eqb_eq in E; subst; contradiction|]. cbn [andb].
+    rewrite (IH Hf). destruct (prefixb q T); [reflexivity|]. destruct (find_sub (c :: q) T); reflexivity.
+Qed.
+
+Lemma find_sub_single : forall c f T, cfree c f -> find_sub [c] (f ++ c :: T) = Some (length f).
+Proof. intros c f T H. rewrite (find_sub_first_char c [] f T H). reflexivity. Qed.
+
+Lemma find_sub_single_none : forall c f, cfree c f -> find_sub [c] f = None.
+Proof.
+  intros c f. induction f as [|x f IH]; intro H; [reflexivity|].
+  apply cfree_cons in H as [Hx Hf]. rewrite find_sub_cons. cbn [prefixb].
+  destruct (c =? x) eqn:E; [apply N.eqb_eq in E; subst; contradiction|]. cbn [andb]. rewrite (IH Hf). reflexivity.
+Qed.
+
+(* a pattern whose first character does not recur in it cannot overlap itself *)
+Lemma prefixb_no_border_aux : forall x q s w, ~ In x q -> prefixb q s = false -> prefixb q (s ++ x :: w) = false.
+Proof.
+  intros x q. induction q as [|y q IH]; intros s w Hx H; [discriminate|].
+  destruct s as [|c s]; cbn [app prefixb] in *.
+  - destruct (y =? x) eqn:E; [apply N.eqb_eq in E; subst; exfalso; apply Hx; left; reflexivity | reflexivity].
+  - destruct (y =? c); cbn [andb] in *; [|reflexivity]. apply IH; [intro I; apply Hx; right; exact I | exact H].
+Qed.
+
+Lemma prefixb_no_border : forall x p' c J w, ~ In x p' ->
+  prefixb (x :: p') (c :: J) = false -> prefixb (x :: p') (c :: J ++ x :: w) = false.
+Proof.
+  intros x p' c J w Hx H. cbn [prefixb] in *. destruct (x =? c); cbn [andb] in *; [|reflexivity].
+  apply prefixb_no_border_aux; assumption.
+Qed.
+
+(* junk without an occurrence, followed by text that starts with the pattern's first character:
+   no occurrence starts inside the junk *)
+Lemma find_sub_junk_gen : forall x p' J w, ~ In x p' -> find_sub (x :: p') J = None ->
+  find_sub (x :: p') (J ++ x :: w) = option_map (fun k => (length J + k)%nat) (find_sub (x :: p') (x :: w)).
+Proof.
+  intros x p' J w Hx. induction J as [|c J IH]; intro HJ.
+  - cbn [app length]. destruct (find_sub (x :: p') (x :: w)); reflexivity.
+  - cbn [app length]. rewrite find_sub_cons in HJ.
+    destruct (prefixb (x :: p') (c :: J)) eqn:E; [discriminate|].
+    destruct (find_sub (x :: p') J) eqn:F; [discriminate|].
+    rewrite find_sub_cons, (prefixb_no_border x p' c J w Hx E), (IH eq_refl).
+    destruct (find_sub (x :: p') (x :: w)); reflexivity.
+Qed.
